@@ -55,3 +55,72 @@ class TableEvaluator:
 
 def ensemble_evaluator(config: EnOptConfig, evaluator, transforms=None) -> EnsembleEvaluator:
     return EnsembleEvaluator(config, transforms, evaluator, plugin_manager())
+
+
+# ----------------------------------------------------------------------------- scripted optimizer
+from ropt.plugins.optimizer.base import Optimizer, OptimizerPlugin  # noqa: E402
+
+
+class ScriptedOptimizer(Optimizer):
+    """Issues exactly the request sequence in ScriptPlugin.script through the optimizer callback.
+
+    script items: {"f": bool, "g": bool, "x": list | None (None = the start vector), "batch": [[..],..] | None}
+    The values handed back by the callback are appended to ScriptPlugin.returns.
+    """
+
+    def __init__(self, config, optimizer_callback):
+        self._config = config
+        self._cb = optimizer_callback
+
+    def start(self, initial_values):
+        ScriptPlugin.started_with = np.array(initial_values, dtype=np.float64).copy()
+        mask = self._config.variables.mask
+        x0 = initial_values if mask is None else initial_values[mask]
+        for item in ScriptPlugin.script:
+            if item.get("batch") is not None:
+                x = np.array(item["batch"], dtype=np.float64)
+            elif item.get("x") is not None:
+                x = np.array(item["x"], dtype=np.float64)
+            else:
+                x = np.array(x0, dtype=np.float64)
+            ScriptPlugin.requests.append({"x": x.tolist(), "f": item["f"], "g": item["g"]})
+            f, g = self._cb(x, return_functions=item["f"], return_gradients=item["g"])
+            ScriptPlugin.returns.append((np.array(f).copy(), np.array(g).copy()))
+
+    @property
+    def allow_nan(self):
+        return ScriptPlugin.allow_nan
+
+    @property
+    def is_parallel(self):
+        return ScriptPlugin.parallel
+
+
+class ScriptPlugin(OptimizerPlugin):
+    script: list = []
+    returns: list = []
+    requests: list = []
+    allow_nan = False
+    parallel = False
+    started_with = None
+
+    @classmethod
+    def reset(cls, script, allow_nan=False, parallel=False):
+        cls.script, cls.returns, cls.requests = list(script), [], []
+        cls.allow_nan, cls.parallel, cls.started_with = allow_nan, parallel, None
+
+    def create(self, config, optimizer_callback):
+        return ScriptedOptimizer(config, optimizer_callback)
+
+    def is_supported(self, method):
+        return method.lower() == "script"
+
+
+EXIT_NAMES = {0: "unknown", 1: "toofew", 2: "maxfun", 3: "nestedfailed", 4: "abort", 5: "finished", 6: "evalfinished"}
+
+
+def exit_name(code) -> str:
+    try:
+        return EXIT_NAMES[int(code)]
+    except Exception:  # noqa: BLE001
+        return f"notacode:{type(code).__name__}"
